@@ -50,15 +50,15 @@ PROPS = {
                 release=False, leak_free=False),
     "C09": dict(families=["lazy", "userlazy"], keys=["out", "ret", "len", "snap", "ev_user"], cfgs=any_cfg,
                 release=False, leak_free=True),
-    "C08": dict(families=["clone", "clonefuse"], keys=["out", "len", "cap", "snap", "ev_clone", "ev_drop", "ev_backend"], cfgs=any_cfg,
+    "C08": dict(families=["clone", "clonefuse", "clone_in"], keys=["out", "ret", "len", "cap", "snap", "ev_clone", "ev_drop", "ev_backend"], cfgs=any_cfg,
                 release=False, leak_free=True),
     "C10": dict(families=["capacity", "liar", "random"], keys=["out", "len", "cap", "snap"], cfgs=is_resizable,
                 release=True, leak_free=True),
-    "C11": dict(families=["elem", "range", "clone", "views"], keys=["out", "ret", "len", "cap", "snap", "ev_alloc"],
+    "C11": dict(families=["elem", "range", "clone", "views", "clone_in"], keys=["out", "ret", "len", "cap", "snap", "ev_alloc"],
                 cfgs=is_stack, release=False, leak_free=True),
     "C12": dict(families=["views", "placement"], keys=["out", "ret", "len", "snap"], cfgs=any_cfg, release=False, leak_free=True),
     "C14": dict(families=["iter", "iter_clone", "iter_nth", "range_nth", "cursor_max"], keys=["out", "ret"], cfgs=any_cfg, release=False, leak_free=True),
-    "C18": dict(families=["capacity", "elem", "range", "clone", "parts", "random", "dropfuse", "clonefuse"], keys=["out", "cap", "ev_alloc"],
+    "C18": dict(families=["capacity", "elem", "range", "clone", "parts", "random", "dropfuse", "clonefuse", "clone_in"], keys=["out", "cap", "ev_alloc"],
                 cfgs=is_heap, release=True, leak_free=True),
     # the harness is linked against any_vec built with default features disabled; the same cases also run
     # on the default build and the two implementations' full trace lines must be identical
@@ -241,7 +241,12 @@ def oracle_c11(cfg, steps, isteps):
     """stack backends: the stated capacity, never the heap"""
     cap = gen.fixed_cap(cfg["be"], cfg["sz"])
     for i, l in enumerate(isteps):
-        if _evs(l, "ARF"):
+        t = steps[i].split() if i < len(steps) else []
+        if t and t[0].startswith("fuse="):
+            t = t[1:]
+        # the one step that may reach the allocator: a clone built on the Heap backend on request (clone_empty_in(Heap))
+        heap_target = len(t) >= 3 and t[0] == "clone_in" and t[2] == "heap"
+        if _evs(l, "ARF") and not heap_target:
             return "step %d: heap traffic %s on a stack backend" % (i, ",".join(_evs(l, "ARF")))
         for cp in _nums(l.get("cap", "")):
             if cp is not None and cap is not None and cp != cap:
